@@ -23,6 +23,27 @@ from pybrops.breed.op.log.Logbook import Logbook
 KEYS = ("genome", "geno", "pheno", "bval", "gmod")
 
 
+class Box(dict):
+    """a container (population / data table) handed between the operators: a dict (the type the programme class demands) whose
+    history of visits is kept in an attribute; `empty` models a valid but empty container (an empty dict is falsy): nothing in
+    the programme loop may depend on the truth value of a container"""
+
+    def __init__(self, v, empty=False):
+        dict.__init__(self)
+        self.hist, self.empty = list(v), empty
+        if not empty:
+            dict.__setitem__(self, "payload", 1)
+
+    def __getitem__(self, k):
+        if k == "v":
+            return self.hist
+        return dict.__getitem__(self, k)
+
+    @property
+    def falsy(self):
+        return self.empty
+
+
 def snap(kw) -> str:
     """content of the five containers an operator/logbook received"""
     return "|".join(",".join(kw[k]["v"]) for k in KEYS)
@@ -42,15 +63,15 @@ class Rec:
                 c["v"].append(name)              # mutate the received container in place and hand it back
                 out.append(c)
             else:
-                out.append({"v": c["v"] + [name]})   # fresh container
+                out.append(Box(c["v"] + [name], c.falsy))   # fresh container
         return out
 
 
 class Init(InitializationOperator):
-    def __init__(self, rec): self.rec = rec
+    def __init__(self, rec, empty=False): self.rec, self.empty = rec, empty
     def initialize(self, miscout=None, **kw):
         self.rec.trace.append("init")
-        return tuple({"v": ["s%d" % i]} for i in range(5))
+        return tuple(Box(["s%d" % i], self.empty) for i in range(5))
 
 
 class PSel(ParentSelectionOperator):
@@ -109,13 +130,13 @@ class LB(Logbook):
 
 
 def run(nrep: int, ngen: int, mut_psel: bool, mut_mate: bool, mut_eval: bool, mut_ssel: bool,
-        loginit: bool, preinit: bool, t_max: int = 1) -> List[str]:
+        loginit: bool, preinit: bool, t_max: int = 1, empty: bool = False) -> List[str]:
     rec = Rec(mut_psel, mut_mate, mut_eval, mut_ssel)
     kw = {}
     if preinit:
-        kw = dict(start_genome={"v": ["s0"]}, start_geno={"v": ["s1"]}, start_pheno={"v": ["s2"]},
-                  start_bval={"v": ["s3"]}, start_gmod={"v": ["s4"]})
-    bp = RSBP(initop=Init(rec), pselop=PSel(rec), mateop=Mate(rec), evalop=Eval(rec), sselop=SSel(rec), t_max=t_max, **kw)
+        kw = dict(start_genome=Box(["s0"], empty), start_geno=Box(["s1"], empty), start_pheno=Box(["s2"], empty),
+                  start_bval=Box(["s3"], empty), start_gmod=Box(["s4"], empty))
+    bp = RSBP(initop=Init(rec, empty), pselop=PSel(rec), mateop=Mate(rec), evalop=Eval(rec), sselop=SSel(rec), t_max=t_max, **kw)
     bp.evolve(nrep, ngen, LB(rec), loginit=loginit)
     starts = [",".join(getattr(bp, "start_" + k)["v"]) for k in KEYS]
     return rec.trace + ["START[%s]" % "|".join(starts)]
@@ -149,17 +170,17 @@ def expected(nrep: int, ngen: int, loginit: bool, preinit: bool) -> List[str]:
 
 
 # MUT_PSEL, MUT_MATE, MUT_EVAL, MUT_SSEL, NREP_MAX, NGEN_MAX, TMAX_LO, TMAX_HI are substituted by vf/props/C20.py
-def check(nrep: int, ngen: int, loginit: bool, preinit: bool, t_max: int) -> bool:
+def check(nrep: int, ngen: int, loginit: bool, preinit: bool, t_max: int, empty: bool) -> bool:
     """
     pre: 0 <= nrep <= NREP_MAX
     pre: 0 <= ngen <= NGEN_MAX
     pre: TMAX_LO <= t_max <= TMAX_HI
     post: _ == True
     """
-    return run(nrep, ngen, MUT_PSEL, MUT_MATE, MUT_EVAL, MUT_SSEL, loginit, preinit, t_max) == expected(nrep, ngen, loginit, preinit)
+    return run(nrep, ngen, MUT_PSEL, MUT_MATE, MUT_EVAL, MUT_SSEL, loginit, preinit, t_max, empty) == expected(nrep, ngen, loginit, preinit)
 
 
-def reach(nrep: int, ngen: int, loginit: bool, preinit: bool, t_max: int) -> bool:
+def reach(nrep: int, ngen: int, loginit: bool, preinit: bool, t_max: int, empty: bool) -> bool:
     """
     reachability twin: must be refuted
     pre: 0 <= nrep <= NREP_MAX
@@ -167,7 +188,7 @@ def reach(nrep: int, ngen: int, loginit: bool, preinit: bool, t_max: int) -> boo
     pre: TMAX_LO <= t_max <= TMAX_HI
     post: _ == False
     """
-    return run(nrep, ngen, MUT_PSEL, MUT_MATE, MUT_EVAL, MUT_SSEL, loginit, preinit, t_max) == expected(nrep, ngen, loginit, preinit)
+    return run(nrep, ngen, MUT_PSEL, MUT_MATE, MUT_EVAL, MUT_SSEL, loginit, preinit, t_max, empty) == expected(nrep, ngen, loginit, preinit)
 
 
 if __name__ == "__main__":
